@@ -7,10 +7,10 @@ META = {
                  'regenerated from the C++ source; differential run of the real parallel_for against the model with start mod g swept, the '
                  'granularity contract evaluated in Coq on the implementation output',
     'text': 'Kernel-checked: with granularity g > 1 and no explicit chunk size, at most one body invocation has a size that is not a multiple of g '
-            'and it ends at the range end -- for the static path (C17 size theorems), the dynamic path (all claim orders) and the adaptive path when '
-            'start is a multiple of g (all claim/steal schedules, no cursor wrap).  C13_refuted: adaptive, start=3, size=1000, g=8, 4-thread pool: '
-            'invocation [195,200) (alignDownStripe aligns stripe ends to absolute multiples of g; reproduced on the real code).  C13_holds_except '
-            'states the contract on the complement of the finding domain (Gallina predicate c13_misaligned_domain).',
+            'and it ends at the range end -- for the static path (C17 size theorems), the dynamic path (all claim orders) and the adaptive path '
+            '(all claim/steal schedules, no cursor wrap, every start mod g): C13_holds.  The former finding adaptive-absolute-alignment (stripe ends '
+            'aligned to absolute multiples of g; witness start=3, size=1000, g=8, 4-thread pool: invocation [195,200)) is fixed in /repo (initStripeState '
+            'aligns the offset from start); its witness is a regression Example in Coq and the first case of the differential run.',
     'note': 'Trusted: Coq kernel; tools/translate.py + clang AST for the leaves; harness/h_parfor.cpp; hand-written glue tied by the differential run only.',
 }
 
@@ -19,8 +19,8 @@ ASSUMPTIONS = [
     'adaptive path: complete schedules without cursor wrap (the wrap is C12\'s finding adaptive-cursor-wrap-64bit)',
 ]
 
+# witness of the former finding adaptive-absolute-alignment, kept as the first (regression) case
 WITNESS = {'kn': 4, 's': 3, 'e': 1003, 'mode': 'a', 'chunk': 0, 'N': 4, 'maxT': (1 << 31) - 1, 'minItems': 1, 'g': 8, 'wait': 1, 'rdv': 0, 'reuse': 0}
-KEY = 'adaptive-absolute-alignment'
 
 
 def report(ctx, c, res, v, hist, tag=''):
@@ -31,10 +31,7 @@ def report(ctx, c, res, v, hist, tag=''):
         return
     hist[v] = hist.get(v, 0) + 1
     bad = [(a, b) for a, b in ch if (b - a) % max(1, c['g']) != 0]
-    if v == 11:
-        ctx.violation('granularity contract broken (%s): %s -> invocations with a size that is not a multiple of g: %s' % (KEY, line, bad[:8]),
-                      {'finding_key': KEY, 'case': c, 'impl_chunks': ch[:200], 'cmd': line})
-    elif v == 2:
+    if v == 2:
         ctx.violation('granularity contract broken: %s -> invocations with a size that is not a multiple of g=%d: %s' % (line, c['g'], bad[:8]),
                       {'case': c, 'impl_chunks': ch[:200], 'bad': bad[:50], 'cmd': 'echo "%s" | build/harness/h_parfor-*' % line})
     elif v == 1:
@@ -72,7 +69,7 @@ def run(ctx):
         return
     distinct = set()
     for i, (c, r, v) in enumerate(zip(cases, results, verd)):
-        report(ctx, c, r, v, hist, ' witness' if i == 0 else '')
+        report(ctx, c, r, v, hist, ' regression witness' if i == 0 else '')
         if r[1] is not None and len(r[1]) > 1 and c['mode'] != 'c':
             distinct.add((c['kn'], c['s'], c['e'], c['mode'], c['N'], c['g'], c['maxT'], c['minItems'], c['wait']))
     ctx.cov['witness_verdict'] = verd[0]
@@ -82,7 +79,7 @@ def run(ctx):
                        'adaptive / explicit chunk x wait 0/1 x 8 index kinds x pool sizes 0..7 x maxThreads x minItemsPerChunk.  Non-trivial = more than '
                        'one invocation and no explicit chunk size (the contract is vacuous with one); distinct = distinct input tuples')
     ctx.cov['verdict_histogram'] = {'agree_and_contract_holds': hist.get(0, 0), 'contract_holds_but_differs_from_model': hist.get(1, 0),
-                                    'contract_broken': hist.get(2, 0), 'contract_broken_known_absolute_alignment': hist.get(11, 0),
+                                    'contract_broken': hist.get(2, 0),
                                     'body_overran(not judged here, see C12)': hist.get(3, 0)}
     ctx.cov['traces_validated_against_impl'] += hist.get(0, 0)
     for i in (0, len(cases) // 2):
